@@ -107,6 +107,8 @@ type bform struct {
 	p       *Prog
 	inline  int
 	visited map[ssa.Value]bool
+	memo    map[*ssa.BasicBlock]dnf
+	inprog  map[*ssa.BasicBlock]bool
 }
 
 func (p *Prog) boolDNF(v ssa.Value, want bool) dnf {
@@ -186,12 +188,9 @@ func isBoolResult(f *ssa.Function) bool {
 // pathCond: conjunction of branch conditions that hold when control reaches `from` (and takes the edge from→to if given),
 // relative to the entry of fn. Conditions that are themselves compound are expanded.
 func (b *bform) pathCond(from, to *ssa.BasicBlock, fn *ssa.Function, depth int) dnf {
-	out := dnf{conj{}}
+	out := b.blockCond(from, depth)
 	add := func(cond ssa.Value, pos bool) {
 		out = dnfAnd(out, b.dnf(cond, pos, depth+1))
-	}
-	for _, f := range rawFactsAtBlock(from) {
-		add(f.Cond, f.Pos)
 	}
 	if to != nil && len(from.Instrs) > 0 {
 		if iff, ok := from.Instrs[len(from.Instrs)-1].(*ssa.If); ok && from.Succs[0] != from.Succs[1] {
@@ -250,4 +249,117 @@ func everyDisjunctHas(d dnf, alts ...[]string) (bool, string) {
 		}
 	}
 	return true, ""
+}
+
+
+// blockCond: DNF of the conditions under which control reaches block blk, merging over predecessors (back edges are
+// ignored); falls back to the dominator-based conjunction when the DNF grows beyond the cap.
+func (b *bform) blockCond(blk *ssa.BasicBlock, depth int) dnf {
+	if b.memo == nil {
+		b.memo = map[*ssa.BasicBlock]dnf{}
+		b.inprog = map[*ssa.BasicBlock]bool{}
+	}
+	if d, ok := b.memo[blk]; ok {
+		return d
+	}
+	domBased := func() dnf {
+		out := dnf{conj{}}
+		for _, f := range rawFactsAtBlock(blk) {
+			out = dnfAnd(out, b.dnf(f.Cond, f.Pos, depth+1))
+		}
+		return out
+	}
+	if depth > 6 || b.inprog[blk] || len(blk.Preds) == 0 {
+		if len(blk.Preds) == 0 {
+			return dnf{conj{}}
+		}
+		return domBased()
+	}
+	b.inprog[blk] = true
+	defer delete(b.inprog, blk)
+	var out dnf
+	for _, p := range blk.Preds {
+		if blk.Dominates(p) { // back edge
+			continue
+		}
+		pc := b.blockCond(p, depth)
+		if len(p.Instrs) > 0 {
+			if iff, ok := p.Instrs[len(p.Instrs)-1].(*ssa.If); ok && p.Succs[0] != p.Succs[1] {
+				if p.Succs[0] == blk {
+					pc = dnfAnd(pc, b.dnf(iff.Cond, true, depth+1))
+				} else if p.Succs[1] == blk {
+					pc = dnfAnd(pc, b.dnf(iff.Cond, false, depth+1))
+				}
+			}
+		}
+		out = dnfOr(out, pc)
+	}
+	out = simplifyDNF(out)
+	if len(out) >= dnfCap || len(out) == 0 {
+		out = domBased()
+	}
+	b.memo[blk] = out
+	return out
+}
+
+// simplifyDNF merges (X ∧ a) ∨ (X ∧ ¬a) → X and removes subsumed / duplicate disjuncts.
+func simplifyDNF(d dnf) dnf {
+	changed := true
+	for changed && len(d) > 1 {
+		changed = false
+	outer:
+		for i := 0; i < len(d); i++ {
+			for j := i + 1; j < len(d); j++ {
+				if len(d[i]) != len(d[j]) {
+					continue
+				}
+				diff := ""
+				nd := 0
+				for k := range d[i] {
+					if !d[j][k] {
+						nd++
+						diff = k
+					}
+				}
+				if nd == 0 {
+					d = append(d[:j], d[j+1:]...)
+					changed = true
+					break outer
+				}
+				if nd == 1 && d[j][negAtom(diff)] {
+					m := d[i].clone()
+					delete(m, diff)
+					d[i] = m
+					d = append(d[:j], d[j+1:]...)
+					changed = true
+					break outer
+				}
+			}
+		}
+	}
+	// subsumption: drop Y if some X ⊂ Y
+	var out dnf
+	for i, y := range d {
+		sub := false
+		for j, x := range d {
+			if i == j || len(x) >= len(y) {
+				continue
+			}
+			all := true
+			for k := range x {
+				if !y[k] {
+					all = false
+					break
+				}
+			}
+			if all {
+				sub = true
+				break
+			}
+		}
+		if !sub {
+			out = append(out, y)
+		}
+	}
+	return out
 }
